@@ -74,6 +74,17 @@ def check(case):
                           a=a, b=b, M=M)
             if got and not got[0][0].startswith('**'):
                 raise Bad('no-header', f'excerpt {a}..{b} does not start with the header line\n{got_text}')
+            if b == M or (a + b) % 3 == 0:
+                # the same range through a caller-owned ExportOptions object: same text, and the object is not rewritten
+                okw = dict(kw)
+                opts = kp.ExportOptions(from_measure=a, to_measure=b, **okw)
+                before = repr(sorted((k_, sorted(v_, key=repr) if isinstance(v_, (set, list)) else v_) for k_, v_ in vars(opts).items()))
+                via = kp.Exporter().export_string(kdoc, opts)
+                after = repr(sorted((k_, sorted(v_, key=repr) if isinstance(v_, (set, list)) else v_) for k_, v_ in vars(opts).items()))
+                if via != got_text:
+                    raise Bad('options-object-differs', f'Exporter.export_string(ExportOptions(from_measure={a}, to_measure={b})) differs from dumps')
+                if before != after:
+                    raise Bad('options-mutated', f'exporting measures {a}..{b} (M={M}) rewrote the caller\'s ExportOptions: {before} -> {after}')
             if a == b:
                 singles.append([l for l in got_lines if not l.startswith('=')])
             if (M >= 3 and a > 1 and b < M) or doc.get('pickup') or not doc.get('final_barline'):
@@ -87,7 +98,10 @@ def check(case):
                         ({'to_measure': M + 1}, 'end beyond M'), ({'from_measure': 1, 'to_measure': M + 1}, 'end beyond M'),
                         ({'from_measure': M, 'to_measure': M + 3}, 'end beyond M')) + \
             tuple(({'from_measure': x, 'to_measure': x - 1}, 'end before start') for x in range(1, M + 1)) + \
-            (({'from_measure': M, 'to_measure': 0}, 'end before start'), ({'from_measure': 1, 'to_measure': -1}, 'end before start')):
+            (({'from_measure': M, 'to_measure': 0}, 'end before start'), ({'from_measure': 1, 'to_measure': -1}, 'end before start'),
+             ({'from_measure': M + 1, 'to_measure': M + 1}, 'end beyond M'), ({'from_measure': M + 1, 'to_measure': M + 2}, 'end beyond M'),
+             ({'from_measure': M + 2, 'to_measure': M + 1}, 'end beyond M'), ({'from_measure': M + 1, 'to_measure': M}, 'end before start'),
+             ({'from_measure': M + 3, 'to_measure': M + 5}, 'end beyond M')):
         evals += 1
         try:
             r = kp.dumps(kdoc, **bad_kw, **kw)
